@@ -36,6 +36,8 @@ namespace dyn {
 type_id g_node_static_id[kNodes] = {2, 3, 4, 5};
 type_id g_deferred_id[64];
 Recorded g_rec;
+std::vector<RawRead> g_reads;
+bool g_capture_reads = true;
 
 static std::map<std::string, RunnerFactory>& registry() {
     static std::map<std::string, RunnerFactory> r;
@@ -352,6 +354,29 @@ static void run_ops(const Script& sc, const std::vector<std::string>& binding) {
                 emit(std::string("{\"e\":\"resolve\",") + P + ",\"m\":" + std::to_string(m) + ",\"t\":" +
                      jlist(t) + ",\"o\":" + std::to_string(cr.o) + "}");
             }
+        } else if (op.k == "L") {
+            emit("{\"e\":\"layout\"," + P + "," + r->layout_json() + "}");
+        } else if (op.k == "RT") {
+            int m = op.a[0];
+            if (!ex.mvp[op.p].count(m)) {
+                emit("{\"e\":\"skipped\",\"why\":\"reads of undeclared method\"}");
+                continue;
+            }
+            std::vector<std::vector<int>> tuples;
+            enumerate_tuples(ex, op.p, m, tuples);
+            std::string rows;
+            for (auto& t : tuples) {
+                std::vector<Obj*> objs;
+                for (std::size_t i = 0; i < t.size(); ++i) objs.push_back(r->make_obj(t[i], (int)i));
+                CallResult cr = r->call(m, objs, Route::resolve);
+                std::string rd;
+                for (auto& x : cr.reads) {
+                    rd += (rd.empty() ? "[\"" : ",[\"") + std::string(1, x.first) + "\"," + std::to_string(x.second) + "]";
+                }
+                if (!rows.empty()) rows += ",";
+                rows += "[" + jlist(t) + ",[" + rd + "]]";
+            }
+            emit("{\"e\":\"reads\"," + P + ",\"m\":" + std::to_string(m) + ",\"rows\":[" + rows + "]}");
         } else if (op.k == "X") {
             int m = op.a[0];
             std::string rows;
@@ -480,5 +505,17 @@ int main(int argc, char** argv) {
 
 namespace verif_hooks {
 std::size_t hash_budget = 0;
-Sink* sink = nullptr;
+struct Collector : Sink {
+    void read(const char* kind, const void* base, std::size_t index) override {
+        if (dyn::g_capture_reads) {
+            dyn::g_reads.push_back({kind[0], static_cast<const std::uintptr_t*>(base) + index});
+        }
+    }
+    void write(const char*, const void*, std::size_t, std::size_t, std::size_t) override {
+    }
+    void decode(const char*, const void*, const void*) override {
+    }
+};
+static Collector collector;
+Sink* sink = &collector;
 } // namespace verif_hooks
